@@ -11,13 +11,13 @@ def splitter_obligations(rep):
         rep.add(grammar.check_after_terminator(pc, 'C02', k))
 
 
-def ws_rules(rep):
+def ws_rules(rep, prop='C02'):
     """the dropped tail consists of tokens typed Whitespace; every rule with such an action matches only whitespace"""
     from sqlparse import keywords, tokens as T
     from pyvc import regexfacts
     for i, (rx, a) in enumerate(keywords.SQL_REGEX):
         if a is not keywords.PROCESS_AS_KEYWORD and a in T.Whitespace:
-            common.structural(rep, 'C02/keywords.SQL_REGEX[%d]/a rule typed Whitespace matches only whitespace characters' % i,
+            common.structural(rep, '%s/keywords.SQL_REGEX[%d]/a rule typed Whitespace matches only whitespace characters' % (prop, i),
                               'sqlparse.keywords.SQL_REGEX', regexfacts.matches_only_whitespace(rx), {'rule': rx})
 
 
